@@ -248,6 +248,21 @@ def generate(rng, tier):
         lim = rand_limit(rng, allow0=False)
         tag = 'fillna-%s/%s/%s+%s-index' % (kind, '+'.join(m.split(':')[0] for m in ms), 'lim' if lim != 'N' else 'nolim', how)
         yield dict(tag=tag, lines=['(fill fillna-%s %s %s %s)' % (kind, enc_obj(kind, x), enc_methods(ms, 'M'), lim)])
+    # 2-d inputs WITHOUT columns (review t4 2.2): n rows, no column - nothing to fill, every row "entirely NaN"
+    for _ in range(40 if tier == 'quick' else 600):
+        n = rng.choice([0, 1, 2, 3, 5])
+        kind = rng.choice(NOCOLS)
+        obj = ('(L' + ''.join(' (T %s F:nan)' % W.enc_t(t) for t in index(rng, n)) + ')') if kind == 'df0' else 'I:%d' % n
+        if kind == 'df0' and rng.random() < 0.2:
+            edge = rng.choice(['N', 'I:1', 'I:-1'])
+            yield dict(tag='nona-df0/%s' % edge, lines=['(fill nona-df0 %s %s)' % (obj, edge)])
+            continue
+        ms, sp = rand_methods(rng)
+        if rng.random() < 0.4:
+            ms = [rng.choice(['ffill_na', 'ffill_0'])] + ms[1:]
+        lim = rand_limit(rng, allow0=False)
+        yield dict(tag='fillna-%s/%s' % (kind, '+'.join(m.split(':')[0] for m in ms)),
+                   lines=['(fill fillna-%s %s %s %s)' % (kind, obj, enc_methods(ms, sp), lim)])
     if rng.random() < 2:   # method = None / [] returns the input
         x, _ = make_obj(rng, 's', 4)
         yield dict(tag='fillna-s/none', lines=['(fill fillna-s %s N N)' % enc_obj('s', x), '(fill fillna-s %s (M) I:1)' % enc_obj('s', x)])
@@ -312,6 +327,8 @@ def run_line(state, sx):
     import pyg_base
     op, args = sx[1], sx[2:]
     fn, _, kind = op.partition('-')
+    if kind in NOCOLS:
+        return run_nocols(fn, kind, args)
     x = dec_obj(kind, args[0])
     kind0, kind = kind, base(kind)
     before = W.snapshot(x)
@@ -337,6 +354,35 @@ def run_line(state, sx):
     if result_reaches_input(x, res, before):
         return 'violation ' + ALIAS_MSG
     return reply
+
+
+NOCOLS = ('df0', 'a0')      # 2-d inputs WITHOUT columns: `pd.DataFrame(index=labels)` / `np.zeros((n, 0))` ("2-d frames of any length ... empty")
+
+
+def run_nocols(fn, kind, args):
+    """(fill fillna-df0 (L (T t F:nan)*) ms lim) / (fill fillna-a0 I:n ms lim) / (fill nona-df0 .. edge): a frame / array with n rows
+    and no column; the reply carries the labels (df0) / the row count (a0) of the result, which must have no column either"""
+    import pyg_base
+    if kind == 'df0':
+        x = pd.DataFrame(index=pd.DatetimeIndex([W.dec_t(item[1]) for item in args[0][1:]]))
+    else:
+        x = np.zeros((int(args[0][2:]), 0))
+    shape, labels = x.shape, (list(x.index) if kind == 'df0' else None)
+    if fn == 'fillna':
+        res = pyg_base.df_fillna(x, dec_methods(args[1]), limit=dec_limit(args[2]))
+    elif fn == 'nona':
+        res = pyg_base.nona(x, edge=dec_limit(args[1]))
+    else:
+        return 'bad-op'
+    if x.shape != shape or (kind == 'df0' and list(x.index) != labels):
+        return 'violation input-modified'
+    if not isinstance(res, pd.DataFrame if kind == 'df0' else np.ndarray):
+        return 'violation result-type %s' % type(res).__name__
+    if len(res.shape) != 2 or res.shape[1] != 0:
+        return 'violation shape %s' % (res.shape,)
+    if kind == 'df0':
+        return 'ok (L' + ''.join(' (T %s F:nan)' % W.enc_t(t) for t in res.index) + ')'
+    return 'ok I:%d' % res.shape[0]
 
 
 ALIAS_MSG = 'result-aliases-input: writing into the result changes the argument'
